@@ -301,6 +301,12 @@ pub fn run(ctx: &Ctx) -> i32 {
             check_octal(p, &format!("{v:03o}"), v, acc);
         }
         check_octal(p, &format!("{v:04o}"), v, acc);
+        // more digits than four are still octal numbers (leading zeros)
+        check_octal(p, &format!("{v:05o}"), v, acc);
+        if v % 7 == 0 || v < 64 {
+            check_octal(p, &format!("{v:06o}"), v, acc);
+            check_octal(p, &format!("{v:09o}"), v, acc);
+        }
     }));
     // five-digit octal arguments above 07777 are not modes: they must be refused, never truncated
     acc = acc.merge(par_cases((0o100000 - 0o10000) * 3, |i, acc| {
